@@ -24,6 +24,7 @@ OPS = ["normalize_rent", "refund_rent", "receive_rent", "close_account"]
 VIAS = ["trait method", "cleanup arg (&explicit)", "cleanup arg () with cache filled by #[validate(funder|recipient)]",
         "cleanup arg () with empty cache", "cleanup arg () with another account cached first"]
 E_FUNDS = 6 << 32
+E_MISSING_SIGNATURE = 8 << 32       # ProgramError::MissingRequiredSignature
 
 RULE = ("seeded random product, every axis forced: operation {normalize, refund, receive, close} x route {trait method, cleanup "
         "argument with explicit funder/recipient, cached `()` through a derived account set, `()` with empty cache, `()` with "
@@ -207,6 +208,14 @@ def predicate(c, obs):
         cache_empty = via == 3 and not (p["kind"] == 2 and op != 3)
         if a0["lamports"] == 0 and op in (0, 1, 2) and not cache_empty:
             return "%s on an account with zero lamports returned error %s instead of leaving it alone" % (OPS[op], o["code"])
+        # the account sets were accepted, so the funder of a top-up is either an outer signer or the program's own PDA, whose
+        # seeds the transfer has to carry: the system program cannot find a signature missing
+        # 0x5100 = the system-program simulator's "privilege escalation": a CPI asks for a signer / writable privilege that
+        # is neither held by the outer instruction nor backed by PDA seeds of the calling program
+        if o["code"] in (E_MISSING_SIGNATURE, 0x5100):
+            return ("%s: the framework issued a CPI that asks for a signer / writable privilege the runtime does not grant, "
+                    "although the account sets were accepted (the funder signs as an outer signer or as the program's own PDA "
+                    "through its seeds; the accounts it writes are writable)" % OPS[op])
         return None
     a1, o1, t1 = o["account"], o["other"], o["third"]
     # who plays funder / recipient: the explicit one, or the first one cached
